@@ -334,6 +334,17 @@ class DiscoSpec(OpsSpec):
     assumptions = ("the configuration grid is finite and covered in the thorough tier; user-data histories on top of it are seeded samples",
                    "WSGI start-up is the real module body of xandikos/wsgi.py driven by its environment variables")
 
+    def run(self, prop, seed, tier, tag):
+        from . import world
+        from .engines import disco
+
+        world.install_seams()
+        try:
+            idx = int(tag.rsplit("-", 1)[1])
+        except (IndexError, ValueError):
+            idx = None
+        return disco.DiscoRun(disco.make_config(seed, tier, idx), tag=tag).run()
+
     def nontrivial_keys(self, res):
         lay = res.get("layout") or []
         if lay and lay[4] >= 1 and (res.get("stats") or {}).get("data_verified", 0) >= 1:
@@ -348,7 +359,8 @@ class DiscoSpec(OpsSpec):
 
     def extra_coverage(self, agg):
         n = len(agg.extra.get("layouts", ()))
-        return {"layouts_covered": n, "layouts_total": 48, "exhaustive": False}
+        return {"layouts_covered": n, "layouts_total": 48, "exhaustive": False,
+                "grid_note": "the 48-layout grid is complete when layouts_covered == 48 (thorough tier walks it by run index); histories on top are sampled"}
 
     def essential(self, agg):
         if agg.stats.get("hrefs_followed", 0) < 50:
